@@ -70,6 +70,16 @@ def rule_verify_version(ctx, rep):
                         (["int 1", "balance", "args"], True), (["int 1"], False)):
         got = w.call(f, [b.ins(l) for l in lines], 8)
         rep.check(got is want, rule, f"mixed mode: {lines}", where, got, want)
+    # the mixture is reported (on stderr) whatever the declared version is
+    for lines, v, want in ((["arg 0", "app_global_get"], 1, True), (["arg_0", "log"], 4, True), (["args", "app_global_get"], 4, True), (["arg 0", "box_del"], 2, True),
+                           (["app_global_get", "log"], 1, False), (["arg 0", "args"], 1, False), (["int 1", "log"], 1, False)):
+        w.stderr = []
+        w.call(f, [b.ins(l) for l in lines], v)
+        said = any("both Application and Signature" in l for l in w.stderr)
+        unsupported = sum(1 for l in w.stderr if "is not supported in Teal version" in l)
+        rep.check(said is want, rule, f"mixture reported for {lines} under version {v}", where, {"mixture reported": said, "unsupported reports": unsupported}, {"mixture reported": want},
+                  why="a program using application-only and signature-only instructions is flagged, also when some of them are newer than the declared version")
+    w.stderr = None
     rep.count("version rows", n)
     rep.require(n >= 1500, f"only {n} version rows")
 
